@@ -34,6 +34,8 @@ def main():
     pid = re.match(r"(C\d+)", sid).group(1)  # the property it belongs to
     budget, workers, pkgs = "45", "8", None
     demo_dir_cli = None
+    check_only = "--check-only" in a  # re-run only step 4 against an already confirmed seed in /verif/seeded/<ID>-<n>
+    a = [x for x in a if x != "--check-only"]
     i = 2
     while i < len(a):
         if a[i] == "--budget":
@@ -46,6 +48,8 @@ def main():
             demo_dir_cli = a[i + 1]
         i += 2
     src = "/tmp/seed/%s.out/%s" % (sid, n)
+    if check_only:
+        src = os.path.join(ROOT, "seeded", "%s-%s" % (sid, n))
     patch = os.path.join(src, "patch.diff")
     meta = json.load(open(os.path.join(src, "meta.json"))) if os.path.exists(os.path.join(src, "meta.json")) else {}
     demos = [f for f in os.listdir(src) if f.endswith("_test.go") or (f.endswith(".go") and f != "patch.diff")]
@@ -69,6 +73,19 @@ def main():
             shutil.copy(os.path.join(src, d), os.path.join(wt, demo_dir, d))
         run_pat = "|".join(sorted(set(re.findall(r"^func (Test\w+)\(", "".join(open(os.path.join(src, d)).read() for d in demos), re.M))))
         demo_cmd = [GO, "test", "-count=1", "-run", "^(%s)$" % run_pat, "./" + demo_dir]
+        if check_only:
+            for d in demos:
+                os.remove(os.path.join(wt, demo_dir, d))
+            rc, out = sh("git apply --whitespace=nowarn %s" % patch, cwd=wt)
+            if rc != 0:
+                print(json.dumps({"seed": sid + "-" + n, "error": "patch does not apply: " + out[-300:]}))
+                return
+            env = dict(os.environ)
+            env.update({"VERIF_REPO": wt, "VERIF_BUDGET_S": budget, "VERIF_WORKERS": workers})
+            rc3, out3 = sh([os.path.join(ROOT, "check"), pid, "quick"], cwd=ROOT, env=env, timeout=3000)
+            viol = re.findall(r"^  (C\d+/[^:]+):", out3, re.M)
+            print(json.dumps({"seed": sid + "-" + n, "exit": rc3, "caught": rc3 == 1, "classes": sorted(set(viol))[:6]}))
+            return
         rc0, out0 = sh(demo_cmd, cwd=wt)
         result["demo_without_change"] = "pass" if rc0 == 0 else "FAIL"
         rc, out = sh("git apply --whitespace=nowarn %s" % patch, cwd=wt)
